@@ -1,6 +1,6 @@
 (* C17 -- A leading backslash makes markup literal (partial).  Property theorems only. *)
 From Rimu Require Import Base Regex RegexParse Str Types Tables Guards State Inline Block
-  Frame FrameBlock FrameInst OptionsLemmas MiscLemmas MoreLemmas Plain MatchExact MacroSubst.
+  Frame FrameBlock FrameInst OptionsLemmas MiscLemmas MoreLemmas Plain MatchExact MacroSubst PlainDoc HeaderDoc.
 
 (* an escaped replacement (link, image, e-mail, URL, tag, entity ...) is rendered as its own text,
    escaped, minus the backslash, as a finished fragment *)
@@ -32,4 +32,21 @@ Print Assumptions C17_parametrised_pattern_skips_simple.
 Example C17_ex_escaped :
   let s := mkIenv 0 [] [] [] [($"who", $"the world")] in
   macros_render (fun t => iret t) s $"Hello \{who}, and goodbye." false = iret $"Hello {who}, and goodbye.".
+Proof. vm_compute. reflexivity. Qed.
+
+(* A LINE-LEVEL ELEMENT PREFIXED WITH A BACKSLASH IS LITERAL TEXT: the line  \#...# title  (a header line with a backslash before
+   it) is not a header: the header rule matches, drops the backslash and hands the rest of the line to the remaining rules, none
+   of which (five line rules, the list rules, the eight delimited-block rules before the paragraph) matches it, so it becomes the
+   paragraph <p>#...# title</p> with the session unchanged -- for one to six hash signs and every title over the safe alphabet *)
+Theorem C17_escaped_header_is_literal : forall fuel' doc mk title s, quiet_default s -> marker_ok mk -> title_ok title ->
+  doc_loop (S (S (S (S fuel')))) doc (S (S fuel')) [92%N :: hd_line mk title] s =
+  Ok ($"<p>" ++ escape (hd_line mk title) ++ $"</p>", s).
+Proof. exact escaped_header_document. Qed.
+Print Assumptions C17_escaped_header_is_literal.
+
+Example C17_ex_escaped_header :
+  match doc_render 9 $"\## not a header" (document_init S0) with
+  | Ok (html, _) => html = $"<p>## not a header</p>"
+  | _ => False
+  end.
 Proof. vm_compute. reflexivity. Qed.
